@@ -13,7 +13,7 @@ import (
 
 //verif:harness VerifC11_Kernels quick.maxpaths=100000 thorough.maxpaths=600000 timeout=3000 unwind=48
 //verif:harness VerifC11_WrongTypes quick.maxpaths=60000 thorough.maxpaths=300000 timeout=2400
-//verif:harness VerifC11_Cycles quick.maxpaths=20000 thorough.maxpaths=100000 timeout=2400 steps=60000000 depth=3000
+//verif:harness VerifC11_Cycles confirmbounds quick.maxpaths=20000 thorough.maxpaths=100000 timeout=2400 steps=60000000 depth=3000
 //verif:harness VerifC11_TemplateBytes quick.maxpaths=100000 thorough.maxpaths=600000 timeout=3000 unwind=64 steps=10000000
 //verif:harness VerifC11_CallFunc quick.maxpaths=60000 thorough.maxpaths=300000 timeout=2400
 
